@@ -1,4 +1,5 @@
 import FrappyDrive.C01
+import FrappyDrive.C14
 import FrappyDrive.C19
 import FrappyDrive.C20
 import FrappyDrive.DTypes
